@@ -168,7 +168,13 @@ def plan(seed, tier="quick", index=0):
             R = EC.mul(k)
             r = R[0] % N
             pre = rng.choice([[], [], ["ZERO"], ["ZERO", "ZERO", "ZERO"]])
-            if rng.random() < 0.25:
+            if rng.random() < 0.2:
+                # digest = r*d: in verification u1*G and u2*P are the same point, the final
+                # addition is a doubling (the classic special case of ECDSA verifiers)
+                z = (r * d) % N
+                op["craft"] = "verify-doubling"
+                op["tape"] = pre + [{"v": hex(k)}]
+            elif rng.random() < 0.25:
                 z = (-r * d) % N
                 op["craft"] = "s-zero-first"
                 op["tape"] = pre + [{"v": hex(k)}] + rng.choice([[], ["ZERO"]]) + [{"v": hex(rng.randrange(1, N))}]
